@@ -31,35 +31,36 @@ InputOK(e) ==
   /\ e.nrows >= 0 /\ e.ncols >= 1 /\ Len(e.m) = e.ncols
   /\ \A j \in 1..e.ncols : InRange(e.m[j], e.nrows) /\ NoDup(e.m[j])
 
-\* vector v (sequence of column indices): well-formed, non-zero, annihilated by m
+\* A returned vector v (sequence of column indices) is judged row by row: with R[r + 1] = the set of
+\* columns that have row r (the transposed input), m annihilates v iff every row meets v evenly.
 VecShapeOK(e, v) == InRange(v, e.ncols)
-VecOK(e, v) == v # <<>> /\ VecShapeOK(e, v) /\ Parity(e.m, e.nrows, v) = ZeroVec(e.nrows)
-AllVecOK(e, K) == \A i \in 1..Len(K) : VecOK(e, K[i])
+VecOK(R, v) == v # <<>> /\ \A V \in {SeqToSet(v)} : SumIsZero(R, V)   \* (singleton quantifier: evaluate once)
+AllVecOK(R, K) == \A i \in 1..Len(K) : VecOK(R, K[i])
 
 \* private coordinates: vector i has P[i], no other vector of K has it  => K is independent
 PrivOK(K, P) ==
-  LET Ks == [i \in 1..Len(K) |-> SeqToSet(K[i])]
-  IN /\ Len(P) = Len(K)
+  \A Ks \in {Sets(K)} :
+     /\ Len(P) = Len(K)
      /\ \A i \in 1..Len(K) : \A j \in 1..Len(K) : (P[i] \in Ks[j]) <=> (i = j)
 
 \* an explicit vanishing combination  => K is dependent
 DepOK(e) ==
   /\ e.dep # <<>> /\ InRange(e.dep, Len(e.k)) /\ NoDup(e.dep)
-  /\ Parity(e.k, e.ncols, e.dep) = ZeroVec(e.ncols)
+  /\ \A C \in {Coords(e.k, e.ncols)} : \A S \in {SeqToSet(e.dep)} : SumIsZero(C, S)
 
 \* x[t] = sum of the members combo[t] of K; x[t] has coordinate piv[t], no later x[s] has it
 \* => the x[t] are independent, they lie in the span of K and are as many as K  => K is independent
 TriOK(e) ==
   /\ Len(e.tri) = Len(e.k)
   /\ \A t \in 1..Len(e.tri) : InRange(e.tri[t].combo, Len(e.k)) /\ e.tri[t].piv \in 0..(e.ncols - 1)
-  /\ LET X == [t \in 1..Len(e.tri) |-> Parity(e.k, e.ncols, e.tri[t].combo)]
-     IN \A t \in 1..Len(e.tri) :
-          /\ X[t][e.tri[t].piv + 1] = 1
-          /\ \A s \in (t + 1)..Len(e.tri) : X[s][e.tri[t].piv + 1] = 0
+  /\ \A C \in {Coords(e.k, e.ncols)} : \A S \in {Sets([t \in 1..Len(e.tri) |-> e.tri[t].combo])} :
+       \A t \in 1..Len(e.tri) :
+          /\ OddAt(C, e.tri[t].piv, S[t])
+          /\ \A s \in (t + 1)..Len(e.tri) : ~OddAt(C, e.tri[t].piv, S[s])
 
 Rank(e) == RankSet({SeqToSet(e.m[j]) : j \in 1..e.ncols})
 
-JudgeGauss(i, e) ==
+JudgeGauss(i, e, R) ==
   \* independence
   /\ IF Has(e, "priv") THEN Witness(i, "priv-certificate", PrivOK(e.k, e.priv))
      ELSE IF Has(e, "dep") THEN
@@ -71,7 +72,9 @@ JudgeGauss(i, e) ==
   /\ Strict(i, "gauss:count-bounds", Len(e.k) <= e.ncols /\ Len(e.k) + e.nrows >= e.ncols)
   /\ (e.ncols <= RankMax) => Strict(i, "gauss:count", Len(e.k) = e.ncols - Rank(e))
   /\ Has(e, "wit") =>
-       LET WOk == Len(e.wit) > Len(e.k) /\ AllVecOK(e, e.wit) /\ PrivOK(e.wit, e.wpriv)
+       LET WOk == /\ Len(e.wit) > Len(e.k)
+                  /\ \A t \in 1..Len(e.wit) : VecShapeOK(e, e.wit[t])
+                  /\ AllVecOK(R, e.wit) /\ PrivOK(e.wit, e.wpriv)
        IN /\ Witness(i, "wit-certificate", WOk)
           \* Len(wit) independent kernel vectors: rank <= ncols - Len(wit) < ncols - Len(k)
           /\ Strict(i, "gauss:count-witness", ~WOk)
@@ -85,8 +88,9 @@ JudgeCall(i, e) ==
        ELSE Strict(i, e.op \o ":" \o e.outcome, FALSE)
   ELSE IF ~(\A t \in 1..Len(e.k) : VecShapeOK(e, e.k[t])) THEN Strict(i, e.op \o ":index-range", FALSE)
   ELSE IF ~(\A t \in 1..Len(e.k) : NoDup(e.k[t])) THEN Witness(i, "repeated-index", FALSE)
-  ELSE /\ Strict(i, e.op \o ":nonzero-in-kernel", AllVecOK(e, e.k))
-       /\ (e.op = "kernel_gauss") => JudgeGauss(i, e)
+  ELSE \A R \in {Coords(e.m, e.nrows)} :                 \* (singleton quantifier: evaluate once)
+          /\ Strict(i, e.op \o ":nonzero-in-kernel", AllVecOK(R, e.k))
+          /\ (e.op = "kernel_gauss") => JudgeGauss(i, e, R)
 
 Init == l = 1
 Next == l <= NRec /\ l' = l + 1 /\ JudgeCall(l, Rec[l])
